@@ -637,7 +637,7 @@ impl Scenario for ApiHistories {
         "api_histories"
     }
     fn runs(&self, tier: Tier) -> u64 {
-        tier.pick(14, 280)
+        tier.pick(14, 140)
     }
     fn generate(&self, g: &mut Gen, tier: Tier, idx: u64) -> Value {
         json!({"config": HISTORIES[(idx % HISTORIES.len() as u64) as usize], "gseed": g.u64(), "seed": crate::props::c07::special_seed(g, 4).to_string(), "reps": tier.pick(12_000, 24_000), "steps": g.usize(1, 2)})
